@@ -295,6 +295,13 @@ func findCallPos(fi *FuncInfo, ca *CallAssert) token.Pos {
 	var pos token.Pos
 	n := 0
 	ast.Inspect(fi.Decl.Body, func(x ast.Node) bool {
+		if snd, ok := x.(*ast.SendStmt); ok && ca.Callee == "chan<-" {
+			n++
+			if (ca.Ordinal == 0 && !pos.IsValid()) || n == ca.Ordinal {
+				pos = snd.Pos()
+			}
+			return true
+		}
 		c, ok := x.(*ast.CallExpr)
 		if !ok {
 			return true
